@@ -501,6 +501,8 @@ def fam_conv_chain(rng, big=False):
         sh = rng.choice([1, 1, 1, 2, 2, 3])
         sw = sh if rng.random() < 0.8 else rng.choice([1, 2, 3])
         dh = dw = rng.choice([1, 1, 1, 2]) if sh == 1 and sw == 1 else 1
+        if sh == 1 and sw == 1 and rng.random() < 0.25:
+            dh, dw = rng.choice([(2, 1), (1, 2)])      # asymmetric dilation is legal and rare
         padding = rng.choice(["SAME", "SAME", "VALID"])
         if padding == "VALID" and ((kh - 1) * dh + 1 > h or (kw - 1) * dw + 1 > w):
             padding = "SAME"
